@@ -5,6 +5,7 @@ import Model.Canon
 import Model.Imports
 import Model.Match
 import Model.Embed
+import Model.Rename
 /-!
 # Line-protocol driver: one JSON case per input line, one JSON verdict per output line.
 -/
@@ -43,7 +44,7 @@ def SemCase.resolve (c : SemCase) (src : String) : String :=
 
 def idxOfId (ids : Array String) (id : String) : Option Nat := ids.findIdx? (· == id)
 
-def buildObs (c : SemCase) : List Observation × (Sig → Sig) :=
+def buildObs (c : SemCase) : List Observation × (Sig → Sig) × List (Sig × Sig) :=
   let named := c.core.named.toList.filter (·.topLevel)
   -- renaming of implicit Core types through the names the compiler reports
   let renPairs : List (Sig × Sig) := named.filterMap (fun nm =>
@@ -80,7 +81,7 @@ def buildObs (c : SemCase) : List Observation × (Sig → Sig) :=
         match (c.irConsts.lookup src).orElse (fun _ => c.irConsts.lookup (src ++ "_folded")) with
         | some m => some { name := nm.name, idx := 0, atAnchor := false, sig, node := nm.node, claim := some m }
         | none => none)
-  (obs, ren)
+  (obs, ren, renPairs)
 
 def buildInputs (c : SemCase) : List InputBinding :=
   c.core.nodes.toList.filterMap (fun nd =>
@@ -129,7 +130,7 @@ def runSem (j : Json) : Json :=
         let m : SigMap := if sigs.isEmpty then [(factorioName stm (jstrD op "output_type"), i32 ((jgetD op "value").getInt?.toOption.getD 0))] else sigs
         some (jstrD op "id", m.filter (fun (_, v) => v != 0)))
       let c : SemCase := { core, bp, circ := { bp.toCircuit with sources := srcIdx }, ids, names := jgetD j "names", stm, irConsts, replaced := jgetD j "replaced" }
-      let (obs, ren) := buildObs c
+      let (obs, ren, renPairs) := buildObs c
       let inputs := buildInputs c
       -- C13, source level: the program with the compiler's signal names on its untyped values denotes the same
       -- (theorem Facto.retype_nodeVal holds for every retyping that passes this check)
@@ -142,7 +143,12 @@ def runSem (j : Json) : Json :=
       -- the validator works on the program as the compiler named it: implicit types replaced by the signals chosen for
       -- them (bundle members then carry the names found on the wires); `retypeCheck` is the premise of
       -- Facto.retype_nodeVal / retype_bundle, which carry every statement back to the program as written
-      let vnodes : Array CNode := if retypeOk then renamed else core.nodes
+      -- … in general (bundle members, selections): the renaming is the composition of the transpositions
+      -- implicit type <-> chosen signal, injective whatever the compiler chose (Facto.swaps_injective);
+      -- Facto.rename_evalNodes / scalar_end_to_end_renamed / bundle_end_to_end_renamed carry the validator's statements
+      -- about `renameNodes ρ P` back to the program as written
+      let rho : Sig → Sig := swaps renPairs.eraseDups
+      let vnodes : Array CNode := core.nodes.map (CNode.rename rho)
       let seed := (jnatD j "seed" 1).toUInt64
       let count := jnatD j "count" 20
       let ticks := jnatD j "ticks" (2 * bp.ents.size + 8)
